@@ -116,9 +116,15 @@ def pair_sites(ctx, funcs, rule='PAIR'):
                 ok = (isinstance(a, ast.Attribute) and isinstance(b, ast.Attribute)
                       and norm(a.value) == norm(b.value)
                       and a.attr in LINE_OF and LINE_OF[a.attr] == b.attr)
-                ctx.check(ok, rule, construct, 'extend pair from the same source object',
-                          f"extend({norm(a)}) is paired with extend({norm(b)})",
-                          key=key + '|extendpair', where=common.loc(fi, st))
+                # extend(flags) + extend((flag, ctx) for flag in flags): lines derived from the very flags
+                derived = isinstance(a, ast.Name) and isinstance(b, (ast.GeneratorExp, ast.ListComp)) \
+                    and len(b.generators) == 1 and norm(b.generators[0].iter) == a.id and not b.generators[0].ifs \
+                    and isinstance(b.elt, ast.Tuple) and len(b.elt.elts) == 2 and norm(b.elt.elts[0]) == norm(b.generators[0].target)
+                mismatch = isinstance(a, ast.Attribute) and isinstance(b, ast.Attribute) and not ok
+                ctx.tri(ok or derived, mismatch, rule, construct, 'extend pair from the same source',
+                        f"extend({norm(a)}) is paired with extend({norm(b)})",
+                        key=key + '|extendpair', where=common.loc(fi, st),
+                        why=f"extend({norm(a)[:30]}) / extend({norm(b)[:40]}): pairing not decided")
                 continue
             flag, line = c.args[0], partner.args[0]
             k = _strish(fi, flag)
